@@ -392,6 +392,7 @@ class Interp:
         rhs = self.ev(s.value, st)
         t = s.target
         opname = type(s.op).__name__
+        self.emit(st, "augassign", s, op=opname, rhs=rhs, target=ast.unparse(t))
         if isinstance(t, ast.Name):
             cur = self.load_name(t.id, st, t)
             res = self.binop(s.op, cur, rhs, st, s)
